@@ -62,6 +62,41 @@ func accessorOverlay() map[string]string {
 	return m
 }
 
+// mutantOverlay supports trying a modified copy of the repository without touching /repo:
+// with VERIF_MUTANT_DIR=<dir> (a worktree or partial copy), every non-test .go file under <dir>
+// that differs from (or is missing in) /repo replaces /repo's file for this build only.
+func mutantOverlay() map[string]string {
+	m := map[string]string{}
+	dir := os.Getenv("VERIF_MUTANT_DIR")
+	if dir == "" {
+		return m
+	}
+	filepath.Walk(dir, func(p string, info os.FileInfo, err error) error {
+		if err != nil {
+			return nil
+		}
+		if info.IsDir() {
+			if info.Name() == ".git" {
+				return filepath.SkipDir
+			}
+			return nil
+		}
+		if !strings.HasSuffix(p, ".go") || strings.HasSuffix(p, "_test.go") {
+			return nil
+		}
+		rel, _ := filepath.Rel(dir, p)
+		orig := filepath.Join("/repo", rel)
+		a, _ := os.ReadFile(p)
+		b, err2 := os.ReadFile(orig)
+		if err2 != nil || string(a) != string(b) {
+			m[orig] = p
+		}
+		return nil
+	})
+	fmt.Fprintf(os.Stderr, "note: VERIF_MUTANT_DIR=%s overrides %d file(s)\n", dir, len(m))
+	return m
+}
+
 type builder struct {
 	work string
 	mu   sync.Mutex
@@ -82,11 +117,21 @@ func (b *builder) build(kind string) string {
 		return p
 	}
 	b.mu.Unlock()
+	origKind := kind
 
 	ov := accessorOverlay()
+	mut := mutantOverlay()
+	for k, v := range mut {
+		ov[k] = v
+	}
 	tags := "verif"
 	pkg := ""
 	var extra []string
+	switch {
+	case strings.HasPrefix(kind, "p:"): // plain build of ./checks/<dir>
+		pkg = "./checks/" + kind[2:]
+		kind = "p-" + kind[2:]
+	}
 	switch kind {
 	case "plain":
 		pkg = "./checks/plain"
@@ -97,6 +142,7 @@ func (b *builder) build(kind string) string {
 		gen := filepath.Join(b.work, "gen-"+kind)
 		cfg := vinstr.DefaultConfig(gen)
 		cfg.StmtPoints = kind == "stmt"
+		cfg.SourceOverride = mut
 		repl, err := vinstr.Run(cfg)
 		if err != nil {
 			infra("instrumentation failed: %v", err)
@@ -109,7 +155,9 @@ func (b *builder) build(kind string) string {
 		tags = "verif,vpass"
 		extra = []string{"-race"}
 	default:
-		infra("unknown build kind %q", kind)
+		if pkg == "" {
+			infra("unknown build kind %q", kind)
+		}
 	}
 	ovPath := filepath.Join(b.work, "overlay-"+kind+".json")
 	ob, _ := json.Marshal(map[string]any{"Replace": ov})
@@ -128,7 +176,7 @@ func (b *builder) build(kind string) string {
 		infra("build of %s failed: %v\n%s", kind, err, outb)
 	}
 	b.mu.Lock()
-	b.done[kind] = out
+	b.done[origKind] = out
 	b.mu.Unlock()
 	return out
 }
